@@ -53,6 +53,6 @@ Definition check_case (c : list (ident * val) * list (op * fspec) * Z) : bool :=
   let '(pool, ops, expected) := c in
   Z.eqb (hash_zlll 0 (trace (map fst pool) (init pool) ops)) expected.
 
-(* urllib.parse.quote(s, safe='') alone *)
+(* CouchDBObjectStore._transform_id alone *)
 Definition check_quote (c : list Z * list Z) : bool :=
-  let '(inp, expected) := c in zl_eqb (codes (quote (sofz inp))) expected.
+  let '(inp, expected) := c in zl_eqb (codes (transform_id (sofz inp))) expected.
